@@ -753,7 +753,12 @@ def bind_by_position(c):
 def param(lc, role):
     """entry value of the parameter with this role (loop invariants)"""
     real = getattr(lc.ex.contract, "aliases", {}).get(role, role)
-    v = lc.entry.lookup(real)
+    if lc.ex.inline_depth > 0:
+        # the loop was moved into a helper the driver calls: the helper's locals are not the driver's parameters
+        ec = getattr(lc.ex, "entry_ctx", None)
+        v = ec.args.get(real) if ec is not None else None
+    else:
+        v = lc.entry.lookup(real)
     if v is None:
         raise ops.Unsupported(f"parameter `{role}` not found")
     return v
